@@ -323,7 +323,7 @@ Lemma infer_scalar_branch_perm h d ser ser' :
 Proof.
   intros H. unfold infer_scalar_branch, is_timestamp, min_count.
   rewrite (forallb_perm is_integral _ _ H), (forallb_perm is_datestr _ _ H),
-          (existsb_perm is_list _ _ H), (min_count_by_perm cell_eqb _ _ H),
+          (min_count_by_perm cell_eqb _ _ H),
           (max_min_count_perm _ _ H).
   reflexivity.
 Qed.
@@ -389,19 +389,19 @@ Proof.
     + apply infer_scalar_branch_perm, HD.
 Qed.
 
-(* homogeneous columns never make inference raise *)
-Lemma list_result_not_raises n s e : list_result n s e <> Raises.
-Proof. unfold list_result. destruct n, s, e; discriminate. Qed.
-
-Lemma infer_homogeneous_no_raise col : homogeneous col -> infer_series_stype col <> Raises.
+(* the model never predicts an exception *)
+Lemma infer_list_loop_no_raise len0 ser : forall n s e, infer_list_loop len0 ser n s e <> Raises.
 Proof.
-  intros [A|B].
-  - destruct (dropna col) as [|c r] eqn:E.
-    + unfold infer_series_stype. rewrite E. discriminate.
-    + rewrite infer_all_lists; rewrite ?E; auto; try congruence. apply list_result_not_raises.
-  - pose proof (existsb_dropna_false _ _ B) as B1. rewrite (infer_no_list col B1).
-    destruct (dropna col) as [|c r]; [discriminate|].
-    unfold infer_scalar_branch. rewrite B1.
+  induction ser as [|c r IH]; intros n s e; simpl.
+  - destruct n, s, e; discriminate.
+  - destruct c; try discriminate. apply IH.
+Qed.
+
+Lemma infer_no_raise col : infer_series_stype col <> Raises.
+Proof.
+  unfold infer_series_stype. destruct (dropna col) as [|c r]; [discriminate|].
+  destruct c; try apply infer_list_loop_no_raise;
+    unfold infer_scalar_branch;
     repeat match goal with |- context [if ?b then _ else _] => destruct b end; discriminate.
 Qed.
 
@@ -451,6 +451,24 @@ Proof.
   destruct c; auto;
     apply infer_scalar_branch_hasnan_irrelevant;
     destruct (forallb is_strlike _); reflexivity.
+Qed.
+
+Lemma infer_dropna col : strlist_col col -> infer_series_stype (dropna col) = infer_series_stype col.
+Proof. intros H. apply (infer_missing_invariant col (dropna col) H (dropna_idem col)). Qed.
+
+Theorem infer_perm_missing_invariant col col' :
+  homogeneous col -> strlist_col col -> Permutation (dropna col) (dropna col') ->
+  infer_series_stype col' = infer_series_stype col.
+Proof.
+  intros Hh Hs HP.
+  assert (Hs1 : strlist_col (dropna col)) by (apply (strlist_col_of_dropna col); [apply dropna_idem | exact Hs]).
+  assert (Hs2 : strlist_col (dropna col')).
+  { unfold strlist_col in *. now rewrite <- (forallb_perm _ _ _ HP). }
+  assert (Hs' : strlist_col col') by (apply (strlist_col_of_dropna (dropna col')); [now rewrite dropna_idem | exact Hs2]).
+  assert (Hd : homogeneous (dropna col)).
+  { destruct Hh as [A|B]; [left | right]; [now rewrite dropna_idem | now apply existsb_dropna_false]. }
+  rewrite <- (infer_dropna col' Hs'), <- (infer_dropna col Hs).
+  symmetry. apply infer_perm_invariant; assumption.
 Qed.
 
 (* ------------------------------------------------------------------ the decision table *)
@@ -560,14 +578,12 @@ Proof.
     rewrite forallb_forall in Z.
     assert (In x (dropna col)) by (apply filter_In; destruct x; try discriminate; auto).
     specialize (Z _ H0). destruct x; discriminate. }
-  assert (L : existsb is_list (dropna col) = false).
-  { apply (forallb_existsb_false is_strlike); auto. kind_false. }
   assert (Hne : dropna col <> []).
   { apply existsb_exists in Hs. destruct Hs as [x [I S]]. intros Z.
     assert (In x (dropna col)) by (apply filter_In; destruct x; try discriminate; auto).
     rewrite Z in H0. destruct H0. }
   destruct (dropna col) as [|c r] eqn:E; [congruence|]. rewrite <- E in *.
-  unfold infer_scalar_branch. rewrite D, T, L. simpl.
+  unfold infer_scalar_branch. rewrite D, T. simpl.
   destruct (above_thresh (min_count (dropna col))); simpl; auto.
   destruct (above_thresh (max_min_count (dropna col))); reflexivity.
 Qed.
@@ -654,21 +670,9 @@ Definition typed_columns (df : list (string * list cell)) : list (string * stype
                       | _ => []
                       end) df.
 
-Lemma infer_df_filter_map df :
-  (forall nc, In nc df -> infer_series_stype (snd nc) <> Raises) ->
-  infer_df_stype df = Some (typed_columns df).
+Lemma infer_df_filter_map df : infer_df_stype df = Some (typed_columns df).
 Proof.
-  induction df as [|[n c] r IH]; intros H; simpl; auto.
-  assert (Hc : infer_series_stype c <> Raises) by (apply (H (n, c)); simpl; auto).
-  rewrite IH by (intros nc I; apply H; simpl; auto).
+  induction df as [|[n c] r IH]; simpl; auto.
+  pose proof (infer_no_raise c) as Hc. rewrite IH.
   destruct (infer_series_stype c) as [[s|]|]; simpl; auto; congruence.
-Qed.
-
-Lemma infer_df_raises df :
-  (exists nc, In nc df /\ infer_series_stype (snd nc) = Raises) -> infer_df_stype df = None.
-Proof.
-  induction df as [|[n c] r IH]; intros [nc [I R]]; [destruct I|].
-  simpl. destruct I as [<-|I].
-  - simpl in R. now rewrite R.
-  - destruct (infer_series_stype c); auto. rewrite IH; eauto.
 Qed.
